@@ -160,7 +160,7 @@ def run_tlc(module, cfg, workers=16, coverage=False, simulate=None, depth=None, 
             res.ok = True
         else:
             mm = re.search(r"Error: (Invariant \w+ is violated|Action property \w+ is violated|"
-                           r"Temporal properties were violated|Deadlock reached)", text)
+                           r"Temporal properties were violated|Deadlock reached|The invariant of \w+ is equal to FALSE)", text)
             if mm:
                 res.violation = mm.group(1)
             else:
